@@ -91,6 +91,7 @@ func deepCopy(v any) any {
 const (
 	hzSamePrecRight = "fmt-same-precedence-right-operand-loses-parens"
 	hzAssocRegroup  = "fmt-associative-right-operand-regrouped"
+	hzAssocExposes  = "fmt-associative-regroup-exposes-same-level-operator"
 	hzSignSign      = "fmt-compact-minus-minus"
 	hzStrEscape     = "fmt-string-escape-a-b-f-v-not-read-back"
 	hzLambdaOperand = "fmt-lambda-operand-loses-parens"
@@ -98,6 +99,7 @@ const (
 	hzMapKV         = "fmt-map-literal-key-or-value-loses-parens"
 	hzNumberDot     = "fmt-dot-on-number-literal-loses-parens"
 	hzOpenSlice     = "fmt-open-slice-end-printed-as-nil"
+	hzOpenInArr     = "fmt-open-range-in-array-literal-operand-parenthesised"
 	hzStmtSign      = "fmt-statement-starting-with-sign-joins-previous"         // normal mode
 	hzStmtSignC     = "fmt-compact-statement-starting-with-sign-joins-previous" // compact mode
 	hzWordGlue      = "fmt-compact-adjacent-statements-glued"
@@ -107,10 +109,27 @@ const (
 	hzElseIfCmt     = "fmt-compact-else-block-comment-and-if-becomes-else-if"
 )
 
-var hazardOrder = []string{hzSamePrecRight, hzAssocRegroup, hzSignSign, hzStrEscape, hzLambdaOperand, hzCallee, hzMapKV, hzNumberDot, hzOpenSlice,
+var hazardOrder = []string{hzSamePrecRight, hzAssocRegroup, hzAssocExposes, hzSignSign, hzStrEscape, hzLambdaOperand, hzCallee, hzMapKV, hzNumberDot, hzOpenSlice, hzOpenInArr,
 	hzStmtSign, hzStmtSignC, hzWordGlue, hzBracketStart, hzCmtInExpr, hzCmtAfterLine, hzElseIfCmt}
 
 var associativeOps = map[string]bool{"+": true, "*": true, "&&": true, "||": true, "&": true, "|": true, "^": true}
+
+// leftSpineSameOp: every infix expression of r's own precedence level on r's left spine is r's operator
+// (then `a op (r)` printed without the parentheses is a mere regrouping; otherwise - a ^ ((b - c) ^ d) ->
+// a ^ b - c ^ d - the un-parenthesised text also tears the other operator's operands apart).
+func leftSpineSameOp(r J) bool {
+	n := r
+	for {
+		l, _ := n["l"].(J)
+		if l == nil || !isInfixKind(l) || realPrec(l) != realPrec(r) {
+			return true
+		}
+		if l["k"] != "inf" || l["op"] != r["op"] {
+			return false
+		}
+		n = l
+	}
+}
 
 func kindOf(n any) string {
 	if j, ok := n.(J); ok {
@@ -316,6 +335,30 @@ func isLambda(n J) bool { return n["k"] == "fn" && n["lambda"] == true }
 var neutralID = J{"k": "id", "n": "nz"}
 var neutralStmt = J{"k": "str", "v": "nz"}
 
+// wrapNZ is the structure-preserving neutral form of an operand: the call nz(children..). The children are
+// arguments (printed at the lowest precedence, nothing around them can interfere), so every hazard INSIDE
+// them survives while the hazard of the replaced node itself is gone.
+func wrapNZ(children ...any) J {
+	args := []any{}
+	for _, c := range children {
+		if j, ok := c.(J); ok && j["k"] != "none" {
+			args = append(args, j)
+		}
+	}
+	return J{"k": "call", "f": deepCopy(neutralID), "a": args}
+}
+
+// embedStmt is the neutral form of a statement at a statement boundary: the map literal {"nz": nz(S)} starts
+// with `{` and ends with `}` (neither glues to a neighbour nor continues it) and keeps S inside; statements
+// that are not expressions become the string "nz".
+func embedStmt(st J) J {
+	switch st["k"] {
+	case "ret", "brk", "cnt", "cmt", "none", "":
+		return deepCopy(neutralStmt).(J)
+	}
+	return J{"k": "map", "p": []any{[]any{deepCopy(neutralStmt), wrapNZ(st)}}}
+}
+
 type hazardCtx struct {
 	mode    string          // "N" | "C"
 	found   map[string]bool // hazards present
@@ -348,32 +391,41 @@ func (h *hazardCtx) walk(n J) J {
 		r, _ := n["r"].(J)
 		l, _ := n["l"].(J)
 		if n["k"] == "inf" && n["op"] == ":" && r != nil && r["k"] == "none" {
-			if h.hit(hzOpenSlice) {
+			// `x:` directly in an array literal: parenthesised (and then unreadable) when the literal is an operand
+			id := hzOpenSlice
+			if n["_inarr"] == true {
+				id = hzOpenInArr
+			}
+			if h.hit(id) {
 				n["r"] = deepCopy(neutralID)
 			}
 		}
+		delete(n, "_inarr")
 		if r != nil && isInfixKind(r) && realPrec(r) == realPrec(n) {
 			// the same associative operator on both levels: the shipped test-suite pins the regrouping (1 + (2 + 3) -> 1 + 2 + 3)
 			id := hzSamePrecRight
 			if n["k"] == "inf" && r["k"] == "inf" && n["op"] == r["op"] && associativeOps[n["op"].(string)] {
 				id = hzAssocRegroup
+				if !leftSpineSameOp(r) {
+					id = hzAssocExposes
+				}
 			}
 			if h.hit(id) {
-				n["r"] = deepCopy(neutralID)
+				n["r"] = wrapNZ(r) // r itself stays intact inside the call (a hazard between r and ITS operands survives)
 			}
 		}
 		r, _ = n["r"].(J)
 		if h.mode == "C" && n["k"] == "inf" && (n["op"] == "-" || n["op"] == "+") && r != nil && realPrec(r) >= realPrec(n) {
 			if s := firstSign(r); s != "" && s[0] == n["op"].(string)[0] {
 				if h.hit(hzSignSign) {
-					n["r"] = replaceLeftmost(r, deepCopy(neutralID).(J))
+					n["r"] = replaceLeftmost(r, wrapNZ(leftmost(r)["r"]))
 				}
 			}
 		}
 		r, _ = n["r"].(J)
 		if r != nil && realPrec(n) > precLambda && isLambda(leftmost(r)) && !(isInfixKind(r) && realPrec(r) < realPrec(n)) {
 			if h.hit(hzLambdaOperand) {
-				n["r"] = replaceLeftmost(r, deepCopy(neutralID).(J))
+				n["r"] = replaceLeftmost(r, wrapNZ(leftmost(r)))
 			}
 		}
 		for _, side := range []string{"l", "r"} {
@@ -389,7 +441,7 @@ func (h *hazardCtx) walk(n J) J {
 		r, _ := n["r"].(J)
 		if r != nil && isLambda(leftmost(r)) && !isInfixKind(r) {
 			if h.hit(hzLambdaOperand) {
-				n["r"] = replaceLeftmost(r, deepCopy(neutralID).(J))
+				n["r"] = replaceLeftmost(r, wrapNZ(leftmost(r)))
 			}
 		}
 		if r != nil && r["k"] == "cmt" {
@@ -407,18 +459,26 @@ func (h *hazardCtx) walk(n J) J {
 				}
 			}
 		}
+	case "arr":
+		for _, e := range n["e"].([]any) {
+			if ej, ok := e.(J); ok && ej["k"] == "inf" && ej["op"] == ":" {
+				if er, _ := ej["r"].(J); er != nil && er["k"] == "none" {
+					ej["_inarr"] = true
+				}
+			}
+		}
 	case "call":
 		f, _ := n["f"].(J)
 		if f != nil && (isInfixKind(f) || f["k"] == "pre") {
 			if h.hit(hzCallee) {
-				n["f"] = deepCopy(neutralID)
+				n["f"] = wrapNZ(f)
 			}
 		}
 	case "dot":
 		l, _ := n["l"].(J)
 		if l != nil && (l["k"] == "int" || l["k"] == "float") {
 			if h.hit(hzNumberDot) {
-				n["l"] = deepCopy(neutralID)
+				n["l"] = wrapNZ(l)
 			}
 		}
 	case "map":
@@ -428,7 +488,7 @@ func (h *hazardCtx) walk(n J) J {
 				c, _ := kv[i].(J)
 				if c != nil && isInfixKind(c) && realPrec(c) <= prec[":"] {
 					if h.hit(hzMapKV) {
-						kv[i] = deepCopy(neutralID)
+						kv[i] = wrapNZ(c)
 					}
 				}
 			}
@@ -503,7 +563,7 @@ func (h *hazardCtx) walkStmts(list []any) []any {
 					id = hzStmtSignC
 				}
 				if h.hit(id) {
-					list[i] = deepCopy(neutralStmt)
+					list[i] = embedStmt(st)
 					st = list[i].(J)
 				}
 			}
@@ -513,13 +573,13 @@ func (h *hazardCtx) walkStmts(list []any) []any {
 					spaced := st["k"] == "arr" || (isInfixKind(prev) && last != '}' && last != ']')
 					if !spaced && isWordByte(last) && isWordByte(first) {
 						if h.hit(hzWordGlue) {
-							list[i] = deepCopy(neutralStmt)
+							list[i] = embedStmt(st)
 							st = list[i].(J)
 						}
 					}
 					if !spaced && (first == '(' || first == '[') {
 						if h.hit(hzBracketStart) {
-							list[i] = deepCopy(neutralStmt)
+							list[i] = embedStmt(st)
 							st = list[i].(J)
 						}
 					}
@@ -564,22 +624,16 @@ func sortedKeys(m map[string]bool) []string {
 	return r
 }
 
-// neutralise removes every hazard except `keep` from the tree; neutralising a site can create a new
-// boundary hazard with its neighbour, so it is repeated until nothing but `keep` is found.
-func neutralise(tree []any, mode, keep string) []any {
-	set := map[string]bool{}
-	for _, h := range hazardOrder {
-		if h != keep {
-			set[h] = true
-		}
-	}
+// neutraliseSet neutralises the hazards of `set` in the tree; neutralising a site can create a new boundary
+// hazard with its neighbour, so it is repeated until no hazard of the set is found any more.
+func neutraliseSet(tree []any, mode string, set map[string]bool) []any {
 	t := tree
 	for i := 0; i < 6; i++ {
 		found, t2 := hazards(t, mode, set)
 		t = t2
 		again := false
 		for h := range found {
-			if h != keep {
+			if set[h] {
 				again = true
 			}
 		}
@@ -590,6 +644,79 @@ func neutralise(tree []any, mode, keep string) []any {
 	return t
 }
 
+func allHazardsExcept(keep string) map[string]bool {
+	set := map[string]bool{}
+	for _, h := range hazardOrder {
+		if h != keep {
+			set[h] = true
+		}
+	}
+	return set
+}
+
+// neutralise removes every hazard except `keep` from the tree.
+func neutralise(tree []any, mode, keep string) []any {
+	return neutraliseSet(tree, mode, allHazardsExcept(keep))
+}
+
+// attribute is the attribution discipline shared by format records and function-value records.
+//
+//	found        hazards present in the case
+//	test(set,..) re-runs the case on the real code with the hazards of `set` neutralised: (still fails, usable)
+//
+// 1. no hazard, or still failing with all of them neutralised                 -> unexplained (a VIOLATION)
+// 2. hazards whose removal ALONE cures the case (the others stay in place)    -> these explain it
+// 3. otherwise hazards that, kept ALONE (all others removed), still fail      -> independent causes
+// 4. otherwise all present ones ("fails only in combination")
+// Neutral forms keep the sub-trees of a site (wrapNZ / embedStmt), so removing one hazard does not remove
+// another one nested inside it.
+func attribute(found map[string]bool, order []string, unexplained string, test func(set map[string]bool) (bool, bool)) (sigs []string, note string) {
+	if len(found) == 0 {
+		return []string{unexplained}, "no known hazard in the tree"
+	}
+	all := map[string]bool{}
+	for _, h := range order {
+		all[h] = true
+	}
+	still, ok := test(all)
+	if !ok {
+		return sortedKeys(found), "attribution by feature presence only (tree not renderable)"
+	}
+	if still {
+		return []string{unexplained}, "still fails with the hazards " + strings.Join(sortedKeys(found), ",") + " neutralised"
+	}
+	if len(found) == 1 {
+		return sortedKeys(found), ""
+	}
+	for _, hz := range order {
+		if found[hz] {
+			if f, ok := test(map[string]bool{hz: true}); ok && !f {
+				sigs = append(sigs, hz)
+			}
+		}
+	}
+	if len(sigs) > 0 {
+		return sigs, ""
+	}
+	for _, hz := range order {
+		if found[hz] {
+			others := map[string]bool{}
+			for _, o := range order {
+				if o != hz {
+					others[o] = true
+				}
+			}
+			if f, ok := test(others); ok && f {
+				sigs = append(sigs, hz)
+			}
+		}
+	}
+	if len(sigs) == 0 {
+		return sortedKeys(found), "fails only in combination"
+	}
+	return sigs, "(several independent causes)"
+}
+
 // fmtAttribute decides the signatures of a record failing `law` of `prop` in `mode`.
 func fmtAttribute(rec *fmtRec, prop, mode, law string, individually bool) (sigs []string, note string) {
 	unexplained := "fmt-" + law + "-" + map[string]string{"N": "normal", "C": "compact"}[mode] + "-unexplained"
@@ -597,11 +724,8 @@ func fmtAttribute(rec *fmtRec, prop, mode, law string, individually bool) (sigs 
 		return []string{"fmt-panic:" + rec.PanicAt}, rec.Panic
 	}
 	found, _ := hazards(rec.TF, mode, nil)
-	if len(found) == 0 {
-		return []string{unexplained}, "no known hazard in the tree"
-	}
-	fails := func(keep string) (failed bool, ok bool) {
-		src, okr := safeRender(neutralise(rec.TF, mode, keep))
+	test := func(set map[string]bool) (failed bool, ok bool) {
+		src, okr := safeRender(neutraliseSet(rec.TF, mode, set))
 		if !okr {
 			return false, false
 		}
@@ -612,29 +736,7 @@ func fmtAttribute(rec *fmtRec, prop, mode, law string, individually bool) (sigs 
 		v := fmtLawsGo(&r2)
 		return fmtFailedLaw(prop, mode, v) != "", true
 	}
-	stillFails, ok := fails("")
-	if !ok {
-		// the tree cannot be rendered / re-parsed (mutated programs with unusual shapes): attribution by presence only
-		return sortedKeys(found), "attribution by feature presence only (tree not renderable)"
-	}
-	if stillFails {
-		return []string{unexplained}, "still fails with the hazards " + strings.Join(sortedKeys(found), ",") + " neutralised"
-	}
-	if len(found) == 1 {
-		return sortedKeys(found), ""
-	}
-	for _, hz := range hazardOrder {
-		if !found[hz] {
-			continue
-		}
-		if f, ok := fails(hz); ok && f {
-			sigs = append(sigs, hz)
-		}
-	}
-	if len(sigs) == 0 {
-		return sortedKeys(found), "fails only in combination"
-	}
-	return sigs, ""
+	return attribute(found, hazardOrder, unexplained, test)
 }
 
 func safeRender(t []any) (src string, ok bool) {
